@@ -704,7 +704,9 @@ def _minimise_history(mod, multi, cls, path, max_wall=150):
     import tempfile
     deadline = time.time() + max_wall
     budget = [200, deadline]
-    tmpdir = tempfile.mkdtemp(prefix="dsimhist", dir="/dev/shm")
+    tmpdir = tempfile.mkdtemp(
+        prefix="dsimhist", dir="/dev/shm" if os.access("/dev/shm", os.W_OK)
+        else None)
     n = [0]
 
     def test(cand):
